@@ -208,11 +208,31 @@ class Session:
             self.data = self.config.generate_toy(spec["n_data"], max_N=400)
         cards.randomize_params(amp, Stream(spec["start_seed"], "start"), 0.8, p_neg=0.3)
         self.negate_ties(Stream(spec["start_seed"], "neg"))
+        self.inside_bounds()
         self.nfits = 0
         self.changing = 0
 
     def build(self):
         return cards.build(self.card)
+
+    def inside_bounds(self):
+        """a start point lies inside the configured ranges (fit() clips a start value outside its range to the
+        boundary, i.e. starts somewhere else)"""
+        amp = self.config.get_amplitude()
+        p = amp.get_params()
+        upd = {}
+        for n, (lo, hi) in self.bounds(self.config).items():
+            if n not in p:
+                continue
+            v = float(p[n])
+            if lo is not None and v < lo + 0.02:
+                v = lo + 0.02 + 0.1 * abs(v - lo) / (1 + abs(v - lo))
+            if hi is not None and v > hi - 0.02:
+                v = hi - 0.02 - 0.1 * abs(v - hi) / (1 + abs(v - hi))
+            if v != float(p[n]):
+                upd[n] = v
+        if upd:
+            amp.set_params(upd)
 
     def negate_ties(self, rs):
         """directed start points: a shared (tied) magnitude starts negative in most sessions - a legal point
@@ -240,6 +260,7 @@ class Session:
         if k == "set_params":
             cards.randomize_params(amp, Stream(op["seed"], "move"), op.get("scale", 1.0), p_neg=0.3)
             self.negate_ties(Stream(op["seed"], "neg"))
+            self.inside_bounds()
             self.changing += 1
             return
         if k == "reinit":
@@ -247,6 +268,7 @@ class Session:
 
             with rng_seam(op["seed"]):
                 config.reinit_params()
+            self.inside_bounds()
             self.changing += 1
             return
         if k == "save_restart":
